@@ -115,13 +115,25 @@ def handle : Handler := fun j => do
       | .notFound => Json.mkObj [("out", "NotFound")]
       | .undetermined => Json.mkObj [("out", "Undetermined")]
     let queries ← (← jarr j "queries").mapM pairOfJson
+    -- `"print":[[query index, showOptional, depth]..]`: what `eups uses` prints for these queries
+    let prints ← match j.getObjVal? "print" with
+      | .ok p => (← p.getArr?).toList.mapM fun x => do
+          match (← x.getArr?).toList with
+          | [qi, so, dp] => pure (← qi.getNat?, ← so.getBool?, ← dp.getNat?)
+          | _ => throw "expected [query index, showOptional, depth]"
+      | .error _ => pure []
     let usesPart : List (String × Json) :=
       if queries.isEmpty then [] else
       match usesInfo db fuel with
       | .outOfFuel => [("uses", "Recursion")]
       | .cycle => [("uses", "Cycle")]
       | .ok sb => [("uses", "ok"),
-                   ("users", Json.arr (queries.map fun (n, v) => Json.arr ((users sb n v).map userToJson).toArray).toArray)]
+                   ("users", Json.arr (queries.map fun (n, v) => Json.arr ((users sb n v).map userToJson).toArray).toArray),
+                   ("printed", Json.arr (prints.map fun (qi, so, dp) =>
+                      match queries[qi]? with
+                      | some (n, v) => Json.arr ((printUses (users sb n v) so dp).map fun (a, b, c, o) =>
+                          Json.arr #[ofStr a, ofStr b, ofStrOpt c, Json.bool o]).toArray
+                      | none => Json.null).toArray)]
     pure (Json.mkObj ([("lists", Json.arr lists.toArray), ("builds", Json.arr builds.toArray)] ++ usesPart))
   | "setup" =>
     -- `{"graph":G,"setup":[[n,v]..],"roots":[[n,v]..],"modes":[..]}`: `eups list -D --setup` listings
